@@ -50,6 +50,10 @@ Handshake(env, res) ==
            /\ phase' = "closed" /\ sess' \in {"none", "dead"} /\ UNCHANGED <<buf, opt>>
         \/ /\ env = "fatal" /\ res = "RemoteAlertFatal"
            /\ phase' = "closed" /\ sess' \in {"none", "dead"} /\ UNCHANGED <<buf, opt>>
+        \* the peer has sent a fatal alert and closed; the endpoint notices through a failing WRITE: the alert (when it
+        \* looks for it) or the socket error
+        \/ /\ env = "fatalsend" /\ res \in {"RemoteAlertFatal", "SocketError"}
+           /\ phase' = "closed" /\ sess' \in {"none", "dead"} /\ UNCHANGED <<buf, opt>>
 
 (***************************************************************************)
 (* read(max, min) -> n bytes;  arrive = application bytes that arrive      *)
@@ -99,7 +103,7 @@ Close(env, res) ==
 (***************************************************************************)
 (* Model-checking view: the environment and the caller choose freely        *)
 (***************************************************************************)
-Envs == {"ok", "data", "close_notify", "warning", "fatal", "eof", "reset", "epipe"}
+Envs == {"ok", "data", "close_notify", "warning", "fatal", "eof", "reset", "epipe", "fatalsend"}
 MCInit == \E cs \in BOOLEAN, ia \in BOOLEAN : InitWith([closeSocket |-> cs, ignoreAbrupt |-> ia])
 VARIABLE last      \* last call: [api, env, res, pre] (observation variable for the properties)
 MCNext == \E env \in Envs, res \in Results :
